@@ -299,3 +299,50 @@ def r6(R):
             'offset are refused as "in the future", future ones with a '
             'negative offset accepted',
             key='datetime not normalised to UTC')
+
+
+# ------------------------------------------------------------------ C15.R7
+@rule('C15.R7', 'a historical connection is refused when its point is later '
+      'than the LAST COMMITTED transaction (ids are assigned at begin: a '
+      'commit with an earlier id may still be in flight below any bound the '
+      'clock alone would allow, and a historical connection never gets '
+      'invalidations)', props=['C02'], min_instances=1)
+def r7(R):
+    cls = R.prog.cls('ZODB.DB.DB')
+    f = R.method(cls, 'open')
+    n = 0
+    ok = False
+    for t in walk_local(f.node):
+        if not isinstance(t, ast.If) or not any(
+                isinstance(x, ast.Raise) for s_ in t.body
+                for x in ast.walk(s_)):
+            continue
+        if not any(isinstance(x, ast.Constant) and isinstance(
+                x.value, str) and 'future' in x.value
+                for s_ in t.body for x in ast.walk(s_)):
+            continue
+        n += 1
+        R.instance('DB.open: %s' % ' '.join(ast.unparse(t.test).split())[:70])
+        # a comparison whose one side IS the last transaction (not a value
+        # computed from it) -- as a conjunct of the refusing test
+        conj = t.test.values if isinstance(t.test, ast.BoolOp) and \
+            isinstance(t.test.op, ast.And) else [t.test]
+        for c in conj:
+            if isinstance(c, ast.Compare) and len(c.ops) == 1 and any(
+                    isinstance(s_, ast.Call) and dotted(s_.func) and
+                    dotted(s_.func)[-1] == 'lastTransaction' and
+                    not s_.args for s_ in [c.left, c.comparators[0]]):
+                ok = True
+        if not ok:
+            R.violation(
+                (f.module.relpath, f.qualname,
+                 ' '.join(ast.unparse(t.test).split()), t.lineno),
+                'DB.open refuses a historical connection "in the future" '
+                'without holding the point against the last committed '
+                'transaction: a point between that and the clock is '
+                'accepted, a writer stopped between begin and finish '
+                'commits BELOW it afterwards -- the connection mixes what '
+                'it had cached with what it loads later (it never receives '
+                'invalidations)',
+                key='future test without the last committed transaction')
+    R.require(n >= 1, 'DB.open no longer refuses points in the future')
